@@ -41,7 +41,7 @@ def _check(ctx: Ctx) -> None:
     keykind.check_function(ctx, FN, "KEY", expect_min=1, summ=summ)
     keykind.check_function(ctx, "AbsoluteSequence.get_message_pairings", "KEY", expect_min=2, summ=summ)
     from ..engines.pairing import check_pairings
-    ctx.floor("pairing-table cases decided", check_pairings(ctx), 14)
+    ctx.floor("pairing-table cases decided", check_pairings(ctx), 16)
 
     # --- FR
     eff = Effects(p)
